@@ -641,6 +641,115 @@ theorem aux_served_within (p : Nat) :
           obtain ⟨i, y, h⟩ := hearlier j (by omega)
           exact ⟨i, y, by simp only [qrun, qpoll] at h ⊢; simpa using h⟩
 
+/-- positional form of one scan: with a ready source `s` at position `p`, the scan serves the source
+at some position `j ≤ p` (it is `s` itself when `j = p`), and the new queue starts with the part of
+the old queue behind position `j` -/
+theorem aux_scan_pos (U : List (Src α)) :
+    ∀ (acc : List (Src α)) (p : Nat) (s : Src α) (x : α) (r : List (Option α)),
+      U[p]? = some s → s.script = some x :: r →
+      ∃ (j : Nat) (u : Src α) (y : α) (tail : List (Src α)), j ≤ p ∧ U[j]? = some u ∧
+        (scan U acc).2.1 = some (u.id, y) ∧ (j = p → u = s ∧ y = x) ∧
+        (scan U acc).1 = U.drop (j + 1) ++ tail := by
+  induction U with
+  | nil => intro acc p s x r h; simp at h
+  | cons u rest ih =>
+    intro acc p s x r hget hsc
+    cases p with
+    | zero =>
+      simp only [List.getElem?_cons_zero, Option.some.injEq] at hget
+      subst hget
+      rcases aux_poll_spec u with ⟨x', r', hsc', hp⟩ | ⟨r', hsc', _⟩ | ⟨hsc', _⟩
+      · rw [hsc] at hsc'; cases hsc'
+        exact ⟨0, u, x, acc ++ [{ u with script := r }], Nat.le_refl _, rfl, by simp [scan, hp],
+          fun _ => ⟨rfl, rfl⟩, by simp [scan, hp]⟩
+      · rw [hsc] at hsc'; cases hsc'
+      · rw [hsc] at hsc'; cases hsc'
+    | succ p =>
+      simp only [List.getElem?_cons_succ] at hget
+      rcases aux_poll_spec u with ⟨y, r', _, hp⟩ | ⟨r', _, hp⟩ | ⟨_, hp⟩
+      · exact ⟨0, u, y, acc ++ [{ u with script := r' }], Nat.zero_le _, rfl, by simp [scan, hp],
+          fun h => by omega, by simp [scan, hp]⟩
+      · obtain ⟨j, v, y, tail, h1, h2, h3, h4, h5⟩ := ih (acc ++ [{ u with script := r' }]) p s x r hget hsc
+        exact ⟨j + 1, v, y, tail, by omega, by simpa using h2, by simp only [scan, hp]; exact h3,
+          fun h => h4 (by omega), by simp only [scan, hp]; simpa using h5⟩
+      · obtain ⟨j, v, y, tail, h1, h2, h3, h4, h5⟩ := ih acc p s x r hget hsc
+        exact ⟨j + 1, v, y, tail, by omega, by simpa using h2, by simp only [scan, hp]; exact h3,
+          fun h => h4 (by omega), by simp only [scan, hp]; simpa using h5⟩
+
+/-- **fairness on the queue**: a ready source at position `p` is served after `k ≤ p` other
+deliveries, all of them items of pairwise different senders, none of them the waiting sender
+(nor any sender in `B`, the senders already behind it) -/
+theorem aux_fair (p : Nat) :
+    ∀ (q : List (Src α)) (B : List Nat) (s : Src α) (x : α) (r : List (Option α)),
+      (q.map (·.id)).Nodup → q[p]? = some s → s.script = some x :: r →
+      (∀ b ∈ B, b ∉ (q.take (p + 1)).map (·.id)) →
+      ∃ (served : List (Nat × α)), served.length ≤ p ∧
+        qrun q (served.length + 1) = served.map (fun e => Out.item e.1 e.2) ++ [.item s.id x] ∧
+        (served.map (·.1)).Nodup ∧ ∀ j ∈ served.map (·.1), j ≠ s.id ∧ j ∉ B := by
+  induction p using Nat.strong_induction_on with
+  | _ p ih =>
+    intro q B s x r hn hget hsc hB
+    obtain ⟨j, u, y, tail, hjp, hju, ho, hjeq, hq'⟩ := aux_scan_pos q [] p s x r hget hsc
+    have hne := aux_scan_some_nonempty q [] (by rw [ho]; simp)
+    have he : (scan q []).1.isEmpty = false := by simpa using hne
+    have hout : (qpoll q).2.1 = .item u.id y := by simp [qpoll, outOf, ho, he]
+    by_cases hj : j = p
+    · obtain ⟨rfl, rfl⟩ := hjeq hj
+      exact ⟨[], Nat.zero_le _, by simp [qrun, hout], by simp, by simp⟩
+    · have hjlt : j < p := by omega
+      have hplt : p < q.length := (List.getElem?_eq_some_iff.mp hget).1
+      -- ids in front of / behind position j are disjoint
+      have hsplit : (q.map (·.id)) = (q.take (j + 1)).map (·.id) ++ (q.drop (j + 1)).map (·.id) := by
+        rw [← List.map_append, List.take_append_drop]
+      have hdisj : ∀ a ∈ (q.take (j + 1)).map (·.id), ∀ b ∈ (q.drop (j + 1)).map (·.id), a ≠ b := by
+        rw [hsplit] at hn; exact (List.nodup_append.mp hn).2.2
+      have hu_take : u ∈ q.take (j + 1) := by
+        apply List.mem_of_getElem? (i := j)
+        rw [List.getElem?_take]; simp [hju]
+      have hs_drop : s ∈ q.drop (j + 1) := by
+        apply List.mem_of_getElem? (i := p - j - 1)
+        rw [List.getElem?_drop]; rw [show j + 1 + (p - j - 1) = p by omega]; exact hget
+      have hus : u.id ≠ s.id :=
+        hdisj u.id (List.mem_map_of_mem hu_take) s.id (List.mem_map_of_mem hs_drop)
+      -- the new queue
+      have hq1 : (qpoll q).1 = q.drop (j + 1) ++ tail := by simp only [qpoll]; exact hq'
+      have hlen : p - j - 1 < (q.drop (j + 1)).length := by rw [List.length_drop]; omega
+      have hget' : (qpoll q).1[p - j - 1]? = some s := by
+        rw [hq1, List.getElem?_append_left hlen, List.getElem?_drop, show j + 1 + (p - j - 1) = p by omega]
+        exact hget
+      have htake : ((qpoll q).1.take (p - j - 1 + 1)) = (q.take (p + 1)).drop (j + 1) := by
+        rw [hq1, List.take_append_of_le_length (by omega), List.drop_take]
+        congr 1; omega
+      have hB' : ∀ b ∈ u.id :: B, b ∉ ((qpoll q).1.take (p - j - 1 + 1)).map (·.id) := by
+        intro b hb hmem
+        rw [htake] at hmem
+        obtain ⟨t, ht, rfl⟩ := List.mem_map.mp hmem
+        rcases List.mem_cons.mp hb with hbu | hbB
+        · -- t is behind position j, u is in front
+          have ht' : t ∈ q.drop (j + 1) := by
+            rw [List.drop_take] at ht; exact List.mem_of_mem_take ht
+          exact hdisj u.id (List.mem_map_of_mem hu_take) t.id (List.mem_map_of_mem ht') hbu.symm
+        · exact hB t.id hbB (List.mem_map_of_mem (List.mem_of_mem_drop ht))
+      obtain ⟨served, hk, hrun, hnd, hall⟩ := ih (p - j - 1) (by omega) (qpoll q).1 (u.id :: B) s x r
+        (aux_qpoll_nodup q hn) hget' hsc hB'
+      refine ⟨(u.id, y) :: served, by simp; omega, ?_, ?_, ?_⟩
+      · have e : qrun q (served.length + 1 + 1) =
+            (qpoll q).2.1 :: qrun (qpoll q).1 (served.length + 1) := rfl
+        simp only [List.length_cons, List.map_cons, List.cons_append]
+        rw [e, hout, hrun]
+      · simp only [List.map_cons, List.nodup_cons]
+        refine ⟨fun hmem => ?_, hnd⟩
+        exact (hall u.id hmem).2 (by simp)
+      · intro i hi
+        simp only [List.map_cons, List.mem_cons] at hi
+        rcases hi with rfl | hi
+        · refine ⟨hus, fun hb => ?_⟩
+          have : u ∈ q.take (p + 1) := by
+            apply List.mem_of_getElem? (i := j)
+            rw [List.getElem?_take]; simp [hju]; omega
+          exact hB u.id hb (List.mem_map_of_mem this)
+        · exact ⟨(hall i hi).1, fun hb => (hall i hi).2 (by simp [hb])⟩
+
 /-! ## Property theorems (concrete `MergeSource` model)
 
 `scripts` is the list of `(sender id, script)`; `MS.new scripts` is the freshly built
@@ -776,31 +885,25 @@ theorem each_source_polled_at_most_once_per_poll (hn : (scripts.map (·.1)).Nodu
     rw [hp]; exact aux_scan_polled_prefix _ _
   exact ⟨hpre.sublist.nodup hnd, hpre⟩
 
-/-- the full fairness clause: a source with a ready item at distance `p` from the cursor is served
-after at most `p` other deliveries, all of them items of pairwise different other senders -/
-def fairnessStatement (α : Type) : Prop :=
-  ∀ (scripts : List (Nat × List (Option α))) (n p : Nat) (s : Src α) (x : α) (r : List (Option α)),
-    (scripts.map (·.1)).Nodup →
-    ((MS.new scripts).after n).queue[p]? = some s → s.script = some x :: r →
-    ∃ k, k ≤ p ∧ (((MS.new scripts).after n).run (k + 1))[k]? = some (.item s.id x) ∧
-      ∃ served : List (Nat × α), served.length = k ∧
-        (((MS.new scripts).after n).run (k + 1)).take k = served.map (fun e => .item e.1 e.2) ∧
-        (served.map (·.1)).Nodup ∧ s.id ∉ served.map (·.1)
-
-/-- **Fairness over one round** (proved part): a source that has a ready item and sits at
-distance `p` from the cursor in polling order is served by the `(p+1)`-th call at the latest
-(so within one round of the others), and every call before that delivers an item — no call is
-wasted while it waits.  Not proved here: that those earlier items come from pairwise different
-senders (`fairnessStatement`); the harness checks that clause on the real code. -/
-theorem fairness_one_round_partial (p : Nat) (s : Src α) (x : α) (r : List (Option α))
+/-- **Fairness over one round**: a source that has a ready item and sits at distance `p` from the
+cursor in polling order is served after `k ≤ p` other deliveries — so by the `(p+1)`-th call at the
+latest — and those earlier deliveries are items of pairwise different other senders: no sender is
+served twice while it waits, and no call is wasted. -/
+theorem fairness_one_round (hn : (scripts.map (·.1)).Nodup) (p : Nat) (s : Src α) (x : α)
+    (r : List (Option α))
     (hget : ((MS.new scripts).after n).queue[p]? = some s) (hsc : s.script = some x :: r) :
-    ∃ k, k ≤ p ∧ (((MS.new scripts).after n).run (k + 1))[k]? = some (.item s.id x) ∧
-      ∀ j, j < k → ∃ i y, (((MS.new scripts).after n).run (k + 1))[j]? = some (.item i y) := by
-  obtain ⟨_, _, hwf⟩ := aux_run_refines (MS.new scripts) (aux_new_wf scripts) n
-  obtain ⟨k, hk, h1, h2⟩ := aux_served_within p _ s x r hget hsc
-  refine ⟨k, hk, ?_, ?_⟩
-  · rw [(aux_run_refines _ hwf (k + 1)).1]; exact h1
-  · intro j hj; rw [(aux_run_refines _ hwf (k + 1)).1]; exact h2 j hj
+    ∃ (served : List (Nat × α)), served.length ≤ p ∧
+      ((MS.new scripts).after n).run (served.length + 1) =
+        served.map (fun e => Out.item e.1 e.2) ++ [.item s.id x] ∧
+      (served.map (·.1)).Nodup ∧ s.id ∉ served.map (·.1) := by
+  obtain ⟨_, r2, hwf⟩ := aux_run_refines (MS.new scripts) (aux_new_wf scripts) n
+  have hq : ((MS.new scripts).queue.map (·.id)).Nodup := by
+    rw [aux_new_queue]; simpa [List.map_map, Function.comp_def] using hn
+  have hnd := (aux_qrun_remaining 0 (MS.new scripts).queue hq n).2
+  rw [← r2] at hnd
+  obtain ⟨served, h1, h2, h3, h4⟩ := aux_fair p _ [] s x r hnd hget hsc (by simp)
+  refine ⟨served, h1, ?_, h3, fun hmem => (h4 s.id hmem).1 rfl⟩
+  rw [(aux_run_refines _ hwf (served.length + 1)).1]; exact h2
 
 /-- `TaggedSource`: a ready `Ok(d)` becomes `Ok((id, d))`, an `Err` stays an `Err`, pendings and
 the end are passed through — so the tagged script has the same shape and the same payloads. -/
